@@ -62,6 +62,8 @@ def run(ctx, col, tier):
     repo = ctx.repo
     from ..rules import stateless as _stateless_memo
     _stateless_memo.run_memo(ctx, col)
+    from ..rules import smalllints2 as _s2
+    _s2.run_freshnode(ctx, col, ('swcgeom.core.tree', 'swcgeom.core.swc_utils.base', 'swcgeom.core.node'))
     from ..rules import opaque as _opaque
     _opaque.run(ctx, col, ('swcgeom.core.swc_utils.base', 'swcgeom.core.tree', 'swcgeom.core.node'))
     from ..rules import idxguard as _idxguard
